@@ -4,15 +4,20 @@ RULE = ("random collections of 0-8 instrument definitions over 1-4 exchanges (al
         "quantity units, 4 asset names shared between exchanges with per-exchange exchange-names, 25 % verbatim repeats, 20 % copies moved to another exchange); "
         "per case: `build` (IndexedInstruments::new: the three tables, positional read-back of every definition, find_* round trips), three `perm` ops "
         "(re-index a shuffled order, 30 % with an element repeated, compare with PartialEq), `engine` (real EngineState builder: instrument / asset / connectivity "
-        "IndexMaps read by position via instrument_index / asset_index / get_index), two `exec` ops (real ExecutionBuilder with add_mock / add_live for a random "
+        "IndexMaps read by position via instrument_index / asset_index / get_index, and once more through the accessors the engine itself routes through - "
+        "instrument_index_mut / asset_index_mut / connectivity_index_mut / connectivity_index, the connectivity entries identified by address: key `eresm`), two `exec` ops (real ExecutionBuilder with add_mock / add_live for a random "
         "subset of exchanges, 10 % with an unknown or duplicate exchange). 12 % of the cases violate the well-formedness hypotheses on purpose (model vs code only; "
-        "the spec stays silent on the clauses that need them). Thorough: additionally 32 collections of 0-5 definitions with EVERY insertion order (1,1,2,6,24,120 "
+        "the spec stays silent on the clauses that need them); in every 6th case a copy moved to ANOTHER exchange keeps its instrument name_internal (names unique per "
+        "exchange but not over the collection: the spec demands `res` / `rt` there and is silent on the engine clause only). Thorough: additionally 32 collections of 0-5 definitions with EVERY insertion order (1,1,2,6,24,120 "
         "orders per size). Distinct by SHA-1 of the op lines; non-trivial when the implementation's observation blocks differ at least once")
 ASSUMPTIONS = [
     "WFAssets (needed by references_resolve, lookups_inverse_asset, tables_aligned_assets, resolve_by_name, engine_tables_resolve): within one exchange an asset's "
     "name_internal determines its name_exchange. At the excluded points the real code resolves an asset reference to the first asset of that exchange with that "
     "internal name and the engine's asset IndexMap (keyed by exchange + name_internal) collapses the entries so later positions shift; model and code agree there "
     "(exercised on every run), the property's resolution clause does not hold",
+    "each spec key is gated by its own hypothesis only (oracle review C11-M1): `resx` and the exchange bit of `rt` by none (exchange_resolves_by_name, rt_exchanges), the "
+    "asset bit of `rt` by WFAssets (rt_assets), the instrument bit of `rt` by per-exchange uniqueness of instrument names WFNamesPerExchange = WFNamesEx (rt_instruments_weak), "
+    "`res` by WFAssets and WFNamesPerExchange (resolve_by_name_weak); only the engine keys `eres` / `eresm` need WFAssets and the global WFNames",
     "WFNames (needed by lookups_inverse_instrument, tables_aligned_instruments, resolve_by_name, engine_tables_resolve): instrument name_internal is unique over the "
     "collection (documented in instrument/name.rs as unique across all exchanges). At the excluded points find_instrument_index returns the first match and the "
     "engine's instrument IndexMap (keyed by name_internal) collapses entries / instrument_index panics past the end; model and code agree there",
